@@ -488,6 +488,9 @@ func (peer *peer) llgrRestartTimerStarted(family bgp.Family) {
 		if a.State.Family == family {
 			conf.AfiSafis[i].MpGracefulRestart.State.Running = false
 			conf.AfiSafis[i].LongLivedGracefulRestart.State.Running = true
+			// a new long-lived stale period for this family: forget that its
+			// timer expired in an earlier one
+			conf.AfiSafis[i].LongLivedGracefulRestart.State.PeerRestartTimerExpired = false
 		}
 	}
 	peer.fsm.pConf.Update(&conf)
